@@ -309,6 +309,7 @@ impl Scenario for C01 {
                 "L4-reorder" => "fired.L4-records-reordered",
                 "L5-noise" => "fired.L5-noise-record",
                 "L6-special-char" => "fired.L6-special-character-inserted",
+                "L7-confusable-char" => "fired.L7-confusable-character",
                 "S7-foreign-magic-prefix" => "fired.S7-foreign-magic-prefix",
                 _ => "fired.other",
             });
@@ -375,6 +376,25 @@ impl Scenario for C01 {
             return Err(Violation::new("C01/encode-not-utf8", "not-utf8", format!("encoder output is not valid UTF-8: {e}")));
         }
         st.add("steps.writer_calls", 1);
+        // the same map through a sink that accepts only a few bytes per call and interrupts now and then: the text that
+        // arrives must be the same complete, valid UTF-8 text (no writer failure is involved)
+        if out.len() <= 200_000 && (plan.idx % 3 == 0 || plan.scen == "first-line") {
+            let mut map3 = Beatmap::decode(data).map_err(|e| Violation::new("C01/error-without-io-failure", "err", e.to_string()))?;
+            let accept = 1 + (plan.idx % 7) as u32;
+            let eintr: Vec<u32> = (0..8).map(|k| (k * 37 + plan.idx % 11) as u32).collect();
+            let (sink, state) = crate::simio::SimWriter::new(vec![accept, accept + 2], eintr, None, None, out.len() * 2 + 64);
+            let r = map3.encode(sink);
+            let s = state.borrow();
+            st.inc("probe.encode-through-short-writing-sink");
+            if let Err(e) = r {
+                return Err(Violation::new("C01/encode-failed", "short-write-sink", format!("encode into a sink that accepts {accept} bytes per call returned Err({e}) although the sink raised no error")));
+            }
+            if s.data != out {
+                let at = s.data.iter().zip(out.iter()).position(|(a, b)| a != b).unwrap_or(s.data.len().min(out.len()));
+                let class = if std::str::from_utf8(&s.data).is_err() { "C01/encode-not-utf8" } else { "C01/encode-nondeterministic" };
+                return Err(Violation::new(class, "short-write-sink", format!("through a sink accepting {accept} bytes per call the encoder delivered {} bytes, into a Vec {}; first difference at {at}", s.data.len(), out.len())));
+            }
+        }
         let mut map2 = Beatmap::decode(data).map_err(|e| Violation::new("C01/error-without-io-failure", "err", e.to_string()))?;
         match map2.encode_to_string() {
             Ok(s) => {
